@@ -634,6 +634,12 @@ func mkLoad(g *generator, ctx *lctx) site {
 }
 
 func (g *generator) failSite(ctx *lctx) site {
+	if ctx.freeUndef != "" && g.r.Intn(4) == 0 {
+		// the enclosing function's still-unassigned local is only available in some frames: favour it there
+		st := mkUndefFree(g, ctx)
+		st.kind, st.role = "undef_free", "undef_free"
+		return st
+	}
 	for {
 		m := siteMakers[g.r.Intn(len(siteMakers))]
 		if !m.ok(ctx, g) {
